@@ -1102,7 +1102,39 @@ fn main() {
 			let r = guarded(std::panic::AssertUnwindSafe(|| hop_scenario(&mut sub, &mut rec, sc, n_cases)));
 			if let Err(p) = r { rec.oracle_fail(format!("hop scenario {} (seed {}) panicked: {}", sc, args.seed, p.chars().take(200).collect::<String>())); }
 		}
-		rec.notes.insert("rule".into(), "4 real nodes A-B-C(-D) per scenario; B's fee/delta config, htlc_interception_flags, accept_forwards_to_priv_channels, announced/unannounced inbound channel, D online/offline/disabled, optional config change on the public B-C channel (prev_config) and B's chain tip 0..40 blocks ahead drawn per scenario; per case a genuine update_add_htlc A->B whose onion is replaced (same session key) by one whose forward payload names a public / private / offline channel, B's phantom SCID, B's intercept SCID or an SCID in no namespace, with amt_to_forward at fee-exact / -1 / +1 / equal to / one more than / 2x / 10x the amount carried and outgoing_cltv_value at configured delta / -1 / +1 / MIN_CLTV_EXPIRY_DELTA / -1 / equal / greater than the inbound expiry and around the height margins; intercepted HTLCs are released at expected_outbound_amount_msat, recipients claim 2/3; distinct by op text".into());
+		// ---- blinded forwards: the real check_blinded_forward (hook) on rounding boundaries vs the GENERATED translation ----------------
+		let n_bl = if args.thorough { 60_000 } else { 6_000 } * args.scale as usize;
+		let mut seen_bl: std::collections::HashSet<String> = Default::default();
+		for _ in 0..n_bl {
+			let base = *rng.pick(&[0u32, 0, 1, 999, 1000, 12_345, u32::MAX]);
+			let prop = *rng.pick(&[0u32, 1, 100, 2500, 10_000, 333_333, 999_999, 1_000_000, 1_000_001, 1_500_000, 2_000_000, 3_000_000, u32::MAX]);
+			let delta = *rng.pick(&[0u16, 1, 40, 72, 144, u16::MAX]);
+			let fee = |a: u128| a * prop as u128 / 1_000_000 + base as u128;
+			// an inbound amount around the point where forwarding `a` exactly pays the fee
+			let a: u128 = match rng.below(6) { 0 => rng.below(4) as u128, 1 => 1 + rng.below(2000) as u128, 2 => 1_000_000 + rng.below(40) as u128, 3 => (rng.next() % 10_000_000_000) as u128, 4 => (u64::MAX as u128) / (1 + rng.below(5) as u128), _ => 1_000 * (1 + rng.below(1000) as u128) };
+			let center = a + fee(a);
+			let in_amt = (center as i128 + rng.below(7) as i128 - 3).clamp(0, u64::MAX as i128) as u64;
+			let in_cltv: u32 = match rng.below(5) { 0 => delta as u32, 1 => (delta as u32).saturating_sub(1), 2 => delta as u32 + 1, 3 => 700_000 + rng.below(1000) as u32, _ => rng.below(200_000) as u32 };
+			let max_cltv: u32 = match rng.below(4) { 0 => in_cltv, 1 => in_cltv.saturating_sub(1), 2 => in_cltv.saturating_add(1), _ => u32::MAX };
+			let htlc_min: u64 = match rng.below(5) { 0 => in_amt, 1 => in_amt.saturating_add(1), 2 => in_amt.saturating_sub(1), 3 => 0, _ => 1 };
+			let op = format!("blinded {} {} {} {} {} {} {} 0", in_amt, in_cltv, base, prop, delta, htlc_min, max_cltv);
+			if !seen_bl.insert(op.clone()) { continue; }
+			let r = guarded(std::panic::AssertUnwindSafe(|| vh::check_blinded_forward(in_amt, in_cltv, base, prop, delta, htlc_min, max_cltv)));
+			let (ans, class) = match r {
+				Ok(Some((amt, cltv))) => {
+					if amt as u128 + fee(amt as u128) > in_amt as u128 || amt == 0 {
+						rec.oracle_fail(format!("blinded forward rounds against the node: inbound {} msat, payment_relay base {} prop {} -> offers {} msat downstream, fee promised for that amount {} msat", in_amt, base, prop, amt, fee(amt as u128)));
+					}
+					if cltv as u64 + delta as u64 != in_cltv as u64 { rec.oracle_fail(format!("blinded forward: outgoing cltv {} != inbound {} - delta {}", cltv, in_cltv, delta)); }
+					let more = (amt as u128 + 1) + fee(amt as u128 + 1) <= in_amt as u128;
+					(format!("forward {} {}", amt, cltv), format!("blinded:forward:{}:one-more-would-fit={}", if prop > 1_000_000 { "prop>100%" } else if prop == 0 { "prop=0" } else { "prop<=100%" }, more as u8))
+				},
+				Ok(None) => ("reject blinded".to_string(), format!("blinded:reject:{}", if in_amt < htlc_min { "min" } else if in_cltv > max_cltv { "max-cltv" } else if (in_cltv as u64) < delta as u64 { "delta" } else { "amount" })),
+				Err(p) => (format!("panic {}", p.chars().take(80).collect::<String>()), "blinded:panic".to_string()),
+			};
+			rec.case(&op, &ans, &class, true);
+		}
+		rec.notes.insert("rule".into(), "4 real nodes A-B-C(-D) per scenario; B's fee/delta config, htlc_interception_flags, accept_forwards_to_priv_channels, announced/unannounced inbound channel, D online/offline/disabled, optional config change on the public B-C channel (prev_config) and B's chain tip 0..40 blocks ahead drawn per scenario; per case a genuine update_add_htlc A->B whose onion is replaced (same session key) by one whose forward payload names a public / private / offline channel, B's phantom SCID, B's intercept SCID or an SCID in no namespace, with amt_to_forward at fee-exact / -1 / +1 / equal to / one more than / 2x / 10x the amount carried and outgoing_cltv_value at configured delta / -1 / +1 / MIN_CLTV_EXPIRY_DELTA / -1 / equal / greater than the inbound expiry and around the height margins; intercepted HTLCs are released at expected_outbound_amount_msat, recipients claim 2/3; plus `blinded` cases: the real check_blinded_forward (hook) on inbound amounts within +-3 msat of the point where forwarding a drawn amount exactly pays the payment_relay fee (base 0..u32::MAX, proportional 0..u32::MAX incl. above 100%), expiries around cltv_expiry_delta and max_cltv_expiry, htlc_minimum_msat around the amount, compared with the GENERATED translation; distinct by op text".into());
 	} else {
 		let n_scen = if args.thorough { 3000 } else { 450 } * args.scale as usize;
 		let mut class_hist: BTreeMap<String, u64> = BTreeMap::new();
